@@ -44,6 +44,20 @@ def gen_cases(tier, seed):
             spec['plan']['faults'] = [{'at': f't0/s3:GetObject:{C * rng.randrange(0, 3)}#0', 'phase': 'body', 'bytes': rng.randrange(0, C),
                                        'kind': 'connreset', 'tag': 'FAULT-r'}]
         cases.append(spec)
+    # user streams whose reads come back short (pipes, sockets): the part bodies built from them must still respect the buffer size
+    for i in range(40 if quick else 400):
+        C = 8
+        T = rng.choice([8, 8, 12])
+        cfg = dict(multipart_threshold=T, multipart_chunksize=C, max_in_memory_upload_chunks=rng.choice([1, 2]), max_request_concurrency=rng.choice([1, 2]),
+                   max_submission_concurrency=1)
+        t = {'kind': 'upload', 'src': rng.choice(['nonseekable', 'nonseekable', 'seekable']), 'size': rng.choice([3 * C, 4 * C + 3, 6 * C]),
+             'src_caps': rng.choice([[3], [5], [7, 2], [C - 1], [1, C]])}
+        if t['src'] == 'nonseekable':
+            t['flavor'] = rng.choice(['bare', 'declared', 'raising'])
+            if rng.random() < 0.5:
+                t['subs'] = [{'provide_size': t['size']}]
+        cases.append({'seed': rng.randrange(1 << 30), 'min_part': min(C, T), 'config': cfg, 'transfers': [t], 'family': 'short-source-reads',
+                      'plan': {'delay_p': rng.choice([0.0, 0.2])}})
     # response bodies whose reads come back short (3 of 4 requested bytes, 5 of 8, ...): what is handed to the IO queue per write must
     # still be at most io_chunksize, so that max_io_queue_size writes hold at most max_io_queue_size x io_chunksize bytes
     for i in range(60 if quick else 600):
